@@ -235,13 +235,15 @@ TEXT = {
                       "combined graph and completeness of find_link on it; fix_exts ports the graph into the pruned table and node-level good "
                       "links are exactly the k-mer-level good links between end ports, so re-compression merges two shard nodes iff their "
                       "k-mers are connected in the pruned table (pgraph_recompress, on top of C09_char); key-level good links depend only on "
-                      "table content, so both pipelines give the classes of one relation (sharded_classes, direct_classes). Payload totals per "
-                      "node and adjacencies are decided by running both real pipelines on the same read sets (6-10 (K,P) pairs, default and "
+                      "table content, so both pipelines give the classes of one relation (sharded_classes, direct_classes). C04_payloads_agree: "
+                      "nodes of the two final graphs with the same k-mers carry the same payload - every node's payload is the saturating sum of "
+                      "the counts of its k-mers, through compress_kmers, concatenation and compress_graph (compressGraph_kdata), whatever the "
+                      "folding order. Adjacencies are decided by running both real pipelines on the same read sets (6-10 (K,P) pairs, default and "
                       "random permutations, stranded and unstranded, thresholds 1-3, with and without sharded pruning) and comparing canonical "
                       "partitions, payload totals and adjacencies; both are also diffed with the composed Lean model (per-shard hash orders "
                       "passed as data).",
         "design_ref": "DESIGN.md section 6, C04",
-        "level_note": COMMON_NOTE + "Partial: the partition claim is proved end to end; payload totals and adjacencies of the two final graphs are compared by execution.",
+        "level_note": COMMON_NOTE + "Partial: partition and payload totals are proved end to end; adjacencies of the two final graphs are compared by execution.",
         "technique": "Lean 4 proof (refinement chain: observation streams -> tables -> ported graphs -> components of one key-level relation) + differential correspondence of composed pipelines with executable predicate on both real pipelines",
     },
     "C06": {
@@ -257,10 +259,11 @@ TEXT = {
                       "one-pass pipeline run on the reads and on the partly reverse-complemented reads never panics and yields the same "
                       "partition of the k-mers into nodes (both are the classes of the key-level good-link relation of the pruned table, and good "
                       "links never read the byte of a self-complementary k-mer: krel_contentW); C06_sharded_rc_invariant - the same for the "
-                      "sharded, combined and re-compressed pipeline, with or without sharded pruning, via C04_sharded_eq_direct. Payload and "
-                      "adjacency equality of the finished graphs are evaluated on the crate's outputs for random masks, even and odd K.",
+                      "sharded, combined and re-compressed pipeline, with or without sharded pruning, via C04_sharded_eq_direct; "
+                      "C06_direct_payload_rc_invariant - nodes of the two runs with the same k-mers carry the same payload. "
+                      "Adjacency equality of the finished graphs is evaluated on the crate's outputs for random masks, even and odd K.",
         "design_ref": "DESIGN.md section 6, C06",
-        "level_note": COMMON_NOTE + "Partial: payload/adjacency invariance of finished graphs by execution.",
+        "level_note": COMMON_NOTE + "Partial: adjacency invariance of finished graphs by execution.",
         "technique": "Lean 4 proof (order algebra of canonical forms; permutation invariance of the filter; congruence of the link relation) + differential correspondence with executable predicate over masked read sets",
     },
     "C09": {
